@@ -24,10 +24,12 @@ namespace Interp
 /-- the `Err(..)` results, by kind -/
 inductive Err where
   | emptyArr        -- find_nearest_index: "Could not get last grid value of arr, is arr empty?"
+  | singleArr       -- find_nearest_index: a single grid value has no cell
   | pointLen        -- validate_inputs: wrong point dimensionality
   | outside         -- validate_inputs: "Supplied point must be within grid"
   | strategy        -- strategy not applicable
   | gridEmpty       -- validate: empty grid coordinates
+  | gridTooShort    -- validate (2-D, 3-D): an axis with fewer than two points
   | notSorted       -- validate: not sorted / repeating
   | shape           -- validate: grid and values are not compatible shapes
   | gridDim         -- validate (ND): length of grid is not the values' dimensionality
@@ -95,15 +97,17 @@ def bsearch (arr : List α) (t : α) : Nat → Nat → Nat → Res Nat
 
 /-- `utils::find_nearest_index` -/
 def findNearestIndex (arr : List α) (t : α) : Res Nat :=
-  match arr.getLast? with
-  | none => .err .emptyArr
-  | some last =>
-    if eqv t last then
-      (if arr.length < 2 then .panic .underflow else .ok (arr.length - 2))
-    else
-      (bsearch arr t (arr.length + 1) 0 (arr.length - 1)).bind fun low =>
-        (idx arr low).bind fun v =>
-          if 0 < low ∧ t ≤ v then .ok (low - 1) else .ok low
+  if arr.length = 1 then .err .singleArr
+  else
+    match arr.getLast? with
+    | none => .err .emptyArr
+    | some last =>
+      if eqv t last then
+        (if arr.length < 2 then .panic .underflow else .ok (arr.length - 2))
+      else
+        (bsearch arr t (arr.length + 1) 0 (arr.length - 1)).bind fun low =>
+          (idx arr low).bind fun v =>
+            if 0 < low ∧ t ≤ v then .ok (low - 1) else .ok low
 
 end
 
@@ -118,11 +122,10 @@ def linspaceFrom (dx : α) (prev : α) : Nat → List α
   | 0 => []
   | k + 1 => (prev + dx) :: linspaceFrom dx (prev + dx) k
 
-/-- `utils::linspace`.  `n = 0`: `n - 1` underflows (panic with overflow checks; otherwise the code
-returns the empty vector, which `Interp2D::new` then rejects) -/
+/-- `utils::linspace` (`n = 0`: the empty vector) -/
 def linspace (x0 xend : α) (n : Nat) : Res (List α) :=
   match n with
-  | 0 => .panic .underflow
+  | 0 => .ok []
   | m + 1 =>
     let dx := (xend - x0) / (ofNat m : α)
     .ok (x0 :: linspaceFrom dx x0 m)
@@ -184,6 +187,7 @@ def idx2 (f : List (List α)) (i j : Nat) : Res α := (idx f i).bind fun r => id
 /-- `Interp2D::validate` -/
 def validate2 (x y : List α) (f : List (List α)) : Res Unit :=
   if x.length = 0 ∨ y.length = 0 then .err .gridEmpty
+  else if x.length < 2 ∨ y.length < 2 then .err .gridTooShort
   else if !(strictlyIncreasing x && strictlyIncreasing y) then .err .notSorted
   else if !(decide (x.length = f.length) && f.all (fun r => decide (r.length = y.length))) then .err .shape
   else .ok ()
@@ -209,6 +213,7 @@ def idx3 (f : List (List (List α))) (i j k : Nat) : Res α := (idx f i).bind fu
 /-- `Interp3D::validate` -/
 def validate3 (x y z : List α) (f : List (List (List α))) : Res Unit :=
   if x.length = 0 ∨ y.length = 0 ∨ z.length = 0 then .err .gridEmpty
+  else if x.length < 2 ∨ y.length < 2 ∨ z.length < 2 then .err .gridTooShort
   else if !(strictlyIncreasing x && strictlyIncreasing y && strictlyIncreasing z) then .err .notSorted
   else if !(decide (x.length = f.length) && f.all (fun r => decide (r.length = y.length))
       && f.all (fun r => r.all (fun s => decide (s.length = z.length)))) then .err .shape
@@ -282,15 +287,21 @@ def ndCheckShape : Nat → List (List α) → List Nat → Res Unit
   | _ + 1, _ :: _, [] => .panic .index
   | k + 1, g :: gs, s :: ss => if g.length ≠ s then .err .shape else ndCheckShape k gs ss
 
-/-- `InterpND::validate` -/
+/-- the grid count `InterpND::validate` compares with the dimensionality: 0 when there is no grid or the
+first one is empty -/
+def ndGridLen (grid : List (List α)) : Nat :=
+  match grid with
+  | g0 :: _ => if g0.isEmpty then 0 else grid.length
+  | [] => 0
+
+/-- `InterpND::validate`: the grid count against the dimensionality first, then the per-dimension loops -/
 def validateN (m : ND α) : Res Unit :=
   let n := m.ndim
-  (ndCheckNonEmpty n m.grid).bind fun _ =>
-    (ndCheckSorted n m.grid).bind fun _ =>
-      (ndCheckShape n m.grid m.shape).bind fun _ =>
-        (idx m.grid 0).bind fun g0 =>
-          let gridLen := if g0.isEmpty then 0 else m.grid.length
-          if gridLen ≠ n then .err .gridDim else .ok ()
+  if ndGridLen m.grid ≠ n then .err .gridDim
+  else
+    (ndCheckNonEmpty n m.grid).bind fun _ =>
+      (ndCheckSorted n m.grid).bind fun _ =>
+        ndCheckShape n m.grid m.shape
 
 /-- what the first loop of `InterpND::linear` decides per dimension -/
 inductive Plan (α : Type) where
